@@ -11,7 +11,7 @@ from .c06 import valid_route
 
 ID = "C08"
 RULE = ("seeded small VRPTWs with integer data (1..3 customers, planted feasible route partitions and random ones, costs of either sign, capacity "
-        "not binding); from one graph: path-based with ALL valid routes enumerated, arc-based on the complete integer grid, sequence-based "
+        "not binding), handed over as a finished VRPTW or (35%) assembled through the path-based object's own add_node/add_arc/set_depot with the depot named late and routes offered by name; from one graph: path-based with ALL valid routes enumerated, arc-based on the complete integer grid, sequence-based "
         "non-strict and strict with V = #customers and L = #customers + 2; constrained optima by exhaustive search over 2^n vectors (n <= 18) and "
         "minima of the default-penalty QUBOs, against an independent route-partition optimiser (subset DP over enumerated valid routes); "
         "non-trivial = reference problem feasible with >= 2 customers; distinct = distinct instance")
@@ -43,7 +43,12 @@ def gen(rng, tier):
         for nd in spec["nodes"]:
             nd["demand"] = "0"
         spec["cap"], spec["init"] = "100", "50"
-        yield dict(spec=spec)
+        # construction route: a finished VRPTW handed to the formulations, or the graph assembled through the path-based object's own
+        # add_node / add_arc / set_depot with the depot named late and routes offered by name (the result must not depend on it)
+        if rng.random() < 0.35:
+            yield dict(spec=spec, via="wrapper", arcs_before_depot=rng.randint(0, len(spec["arcs"])))
+        else:
+            yield dict(spec=spec)
 
 
 def shrink(case):
@@ -103,9 +108,27 @@ def run_case(case, drv):
     ref = best.get(custs)
     res.features += [f"customers:{ncust}", f"reference:{'feasible' if ref is not None else 'infeasible'}", f"routes:{min(len(routes), 15)}"]
     # ---------------- path with all valid routes
-    pb = PathBasedRoutingProblem(v)
-    for _, _, r in routes:
-        pb.add_route(list(r))
+    if case.get("via") == "wrapper":
+        res.features.append("via:wrapper-late-depot")
+        pb = PathBasedRoutingProblem()
+        pb.set_vehicle_cap(VU.val(spec["cap"]))
+        pb.set_initial_loading(VU.val(spec["init"]))
+        for nd in spec["nodes"][1:] + spec["nodes"][:1]:
+            pb.add_node(nd["name"], VU.val(nd["demand"]), (VU.val(nd["lo"]), VU.val(nd["hi"])))
+        kb = case.get("arcs_before_depot", 0)
+        for a in spec["arcs"][:kb]:
+            pb.add_arc(a[0], a[1], VU.val(a[2]), VU.val(a[3]))
+        pb.set_depot(spec["nodes"][0]["name"])
+        for a in spec["arcs"][kb:]:
+            pb.add_arc(a[0], a[1], VU.val(a[2]), VU.val(a[3]))
+        names = [nd[0] for nd in g["nodes"]]
+        for _, _, r in routes:
+            pb.add_route([names[i] for i in r])
+        v = pb.vrptw     # the other formulations are built from the graph assembled this way
+    else:
+        pb = PathBasedRoutingProblem(v)
+        for _, _, r in routes:
+            pb.add_route(list(r))
     sp = constrained_opt(pb)
     # ---------------- arc on the complete integer grid
     top = int(max([n[2] for n in g["nodes"]] + [n[3] for n in g["nodes"] if n[3] != core.INF])) + int(sum(a[4] for a in g["arcs"])) + 1
